@@ -299,3 +299,53 @@ pub fn abstract_closed_form(n: usize, k: usize, a: usize) -> u64 {
     }
     total
 }
+
+/// Re-execute one recorded (history, op) on a fresh object, twice, without the explorer.
+/// Returns (exit code, report): 1 if a violation is observed, 2 if the two runs disagree.
+pub fn replay<S: Sys>(sys: &S, path: &[u32], op: Option<u32>, enabled: crate::ctx::PMask) -> (i32, crate::json::J) {
+    use crate::json::J;
+    let mut outs = Vec::new();
+    for _ in 0..2 {
+        let mut cx = Ctx::new(enabled);
+        cx.here.config = sys.config();
+        cx.here.path_idx = path.to_vec();
+        cx.here.path = path.iter().map(|i| sys.op_name(*i as usize)).collect();
+        if let Some(o) = op {
+            cx.here.op_idx = o;
+        }
+        let out = sys.run(path, op, &mut cx);
+        let mut v: Vec<J> = Vec::new();
+        let mut classes: Vec<String> = Vec::new();
+        for (i, b) in cx.best.iter().enumerate() {
+            if let Some(b) = b {
+                v.push(b.to_json().set("reported_for", crate::ctx::pname(i)));
+                classes.push(format!("{}:{}", crate::ctx::pname(i), cx.viol_total[i] > 0));
+            }
+        }
+        outs.push((out.before, out.after, classes, v, cx.machinery_errors.clone()));
+    }
+    let same = outs[0].0 == outs[1].0 && outs[0].1 == outs[1].1 && outs[0].2 == outs[1].2;
+    let (before, after, _, v, mach) = outs.remove(0);
+    let nviol = v.len();
+    let j = J::obj()
+        .set("config", sys.config())
+        .set("history", path.iter().map(|i| sys.op_name(*i as usize)).collect::<Vec<_>>())
+        .set("op", op.map(|o| sys.op_name(o as usize)).unwrap_or_default())
+        .set("state_before", before.render())
+        .set("state_after", after.map(|a| a.render()).unwrap_or_default())
+        .set("deterministic", same)
+        .set("violations", J::Arr(v))
+        .set("machinery_errors", mach.clone());
+    let code = if !same || !mach.is_empty() {
+        2
+    } else if nviol > 0 {
+        1
+    } else {
+        0
+    };
+    (code, j)
+}
+
+pub fn parse_idx_list(s: &str) -> Vec<u32> {
+    s.split(',').filter(|x| !x.is_empty()).filter_map(|x| x.trim().parse().ok()).collect()
+}
